@@ -63,6 +63,19 @@ impl Read for ShortReader {
     }
 }
 
+pub fn new_bcj_writer<W: std::io::Write>(arch: &str, w: W, start: usize) -> BCJWriter<W> {
+    match arch {
+        "x86" => BCJWriter::new_x86(w, start),
+        "ppc" => BCJWriter::new_ppc(w, start),
+        "ia64" => BCJWriter::new_ia64(w, start),
+        "arm" => BCJWriter::new_arm(w, start),
+        "armthumb" => BCJWriter::new_arm_thumb(w, start),
+        "sparc" => BCJWriter::new_sparc(w, start),
+        "arm64" => BCJWriter::new_arm64(w, start),
+        _ => BCJWriter::new_riscv(w, start),
+    }
+}
+
 pub fn new_bcj_reader<R: Read>(arch: &str, r: R, start: usize) -> BCJReader<R> {
     match arch {
         "x86" => BCJReader::new_x86(r, start),
@@ -154,6 +167,8 @@ pub fn lzma2_unit_sizes(s: &[u8]) -> Option<Vec<u64>> {
 }
 
 pub fn run_c07(rep: &mut Report, rng: &mut Rng, thorough: bool) {
+    // the state a filter carries from one piece to the next, checked call by call against the model
+    crate::c11::bcj_steps(rep, rng, if thorough { 40000 } else { 4000 });
     let n = if thorough { 4000 } else { 300 };
     let max = if thorough { 1 << 20 } else { 80 << 10 };
     for i in 0..n {
@@ -317,6 +332,44 @@ pub fn run_c07(rep: &mut Report, rng: &mut Rng, thorough: bool) {
             (other, _) => rep.fail(&format!("bcj-streaming-writer-{}:{arch}", other.class()), &other.describe(), detail()),
         }
         rep.case(format!("bcjstream:{arch}:{}:{pstyle}", size_class(size)), size >= 16, || detail());
+    }
+    // every two-way split of short opcode-dense inputs (streaming writer), and 1-byte / split-sized reads
+    for k in 0..(if thorough { 600 } else { 60 }) {
+        let mut r = rng.fork();
+        let arch = if k % 2 == 0 { "x86" } else { crate::c11::ARCHS[(k as usize / 2) % 8] };
+        let len = r.range(10, 72) as usize;
+        let data = if arch == "x86" { crate::c11::gen_x86_dense(&mut r, len) } else { crate::c11::gen_arch_code(&mut r, arch, len) };
+        let a = crate::c11::align_of(arch);
+        let start = (*r.pick(&[0u32, 0xFFFF_FFF0]) / a) * a;
+        let one = match crate::c11::real_encode(arch, start, &data) {
+            Outcome::Ok(o) => o,
+            _ => continue,
+        };
+        rep.count("bcj.all-splits");
+        for s in 0..=len {
+            let detail = || json!({"arch": arch, "start": start, "data_hex": hex(&data), "split_at": s, "case": k});
+            let w = guard(|| {
+                let mut w = new_bcj_writer(arch, Vec::new(), start as usize).verif_streaming();
+                write_parts(&mut w, &data, &[s, len - s], 0)?;
+                w.finish()
+            });
+            match w {
+                Outcome::Ok(enc) if enc == one => {}
+                Outcome::Ok(_) => rep.fail(&format!("bcj-streaming-writer-partition:{arch}"), "streaming BCJ writer output depends on the partition (two-way split)", detail()),
+                other => rep.fail(&format!("bcj-streaming-writer-{}:{arch}", other.class()), &other.describe(), detail()),
+            }
+            let sizes = if s == 0 { vec![1usize] } else { vec![s, 1, 3] };
+            let dec = guard(|| {
+                let mut rd = new_bcj_reader(arch, one.as_slice(), start as usize);
+                read_all_sched(&mut rd, &sizes, len + 16)
+            });
+            match dec {
+                Outcome::Ok(d) if d == data => {}
+                Outcome::Ok(_) => rep.fail(&format!("bcj-reader-schedule:{arch}"), "BCJ reader output depends on the read sizes (short dense input)", detail()),
+                other => rep.fail(&format!("bcj-reader-{}:{arch}", other.class()), &other.describe(), detail()),
+            }
+        }
+        rep.case(format!("bcjsplits:{arch}:{}", len / 16), true, || json!({"arch": arch, "data_hex": hex(&data)}));
     }
     // standalone BCJWriter with several writes: recorded finding (see KNOWN_FINDINGS) - still evaluated so that
     // a change of behaviour is noticed
